@@ -20,7 +20,7 @@ PROPERTY = "C18"
 LEVEL = "exploration"
 ENGINE = "sim"
 TECHNIQUE = "runtime monitor in a deterministic world: scripted page server + sequential reference (concatenation of pages, paging-state chain) over an enumerated space of page-size sequences x access patterns"
-LEVEL_TEXT = ("Exhaustive over page-size sequences in {0..3}^(1..4) on quick ({0..3}^(1..7) on thorough) x 13 access patterns, row factory "
+LEVEL_TEXT = ("Exhaustive over page-size sequences in {0..3}^(1..4) on quick ({0..3}^(1..7) on thorough) x 13 access patterns x {load-balanced, pinned to one of two hosts with host=}, row factory "
               "tuple/dict/named rotating (all three for every sequence on thorough): rows seen == concatenation of pages, paging-state chain "
               "exact, no request after the final page, list materialisation == iteration, observers agree with the page model. "
               "Exhaustive within those bounds for the sequential access patterns listed; schedules (thread interleavings) are sampled.")
@@ -55,6 +55,7 @@ class PageServer(object):
             return None
         ps = req.get('paging_state')
         sp['log'].append((None if ps is None else bytes(ps), req.get('page_size')))
+        sp.setdefault('nodes', []).append(node.address)
         pages = sp['pages']
         if len(sp['log']) > len(pages) + 3:
             sp['flags'].append('runaway')
@@ -72,7 +73,7 @@ class PageServer(object):
         return node.rows(cstate, req, COLS, [[rid, 'p%d' % k] for rid in pages[k]], 'ks', 't', **md)
 
 
-def callback_paging(pattern, session, statement, profile, world, sp):
+def callback_paging(pattern, session, statement, profile, world, sp, host=None):
     """The documented callback-driven paging (PagedResultHandler): execute_async, a handler added with add_callbacks that collects the page and,
     while has_more_pages, calls start_fetching_next_page().  'early': the handler is attached before the first response can be processed;
     'late': after the first page's response was processed (the callback runs immediately inside add_callbacks); 'split': add_callback and
@@ -92,10 +93,10 @@ def callback_paging(pattern, session, statement, profile, world, sp):
         errors.append(exc)
     if pattern == 'callback-paging-early':
         with world.inspect():                 # main keeps the baton: no response is processed before the handler is attached
-            box['f'] = session.execute_async(statement, execution_profile=profile)
+            box['f'] = session.execute_async(statement, execution_profile=profile, host=host)
             box['f'].add_callbacks(handle_page, handle_error)
     else:
-        box['f'] = session.execute_async(statement, execution_profile=profile)
+        box['f'] = session.execute_async(statement, execution_profile=profile, host=host)
         world.settle(advance=False)           # the first page's response has been processed
         if pattern == 'callback-paging-late':
             box['f'].add_callbacks(handle_page, handle_error)
@@ -534,7 +535,7 @@ def run(ctx):
     from cassandra.policies import RoundRobinPolicy
     from cassandra.query import SimpleStatement, tuple_factory, dict_factory, named_tuple_factory
 
-    ctx.rule = ("a case is (page-size sequence, access pattern, row factory); sequences enumerated completely up to the bound, every pattern for every "
+    ctx.rule = ("a case is (page-size sequence, access pattern, row factory, load-balanced or pinned with host=); sequences enumerated completely up to the bound, every pattern for every "
                 "sequence; distinct by that triple; non-trivial = more than one page")
     ctx.assume("calling iter() again on a partially consumed ResultSet restarts the current page, and iteration mixed with fetch_next_page() skips the manually "
                "fetched page: the driver does not define these mixes, they are not generated")
@@ -550,11 +551,12 @@ def run(ctx):
         if i % nw != me:
             continue
         for j, pat in enumerate(PATTERNS):
-            if ctx.quick:
-                work.append((seq, pat, factories[(i + j + ctx.seed) % 3][0]))
-            else:
-                for f in factories:
-                    work.append((seq, pat, f[0]))
+            for targeted in (False, True):          # load-balanced execution / execution pinned to one host with host=
+                if ctx.quick:
+                    work.append((seq, pat, factories[(i + j + ctx.seed + targeted) % 3][0], targeted))
+                else:
+                    for f in factories:
+                        work.append((seq, pat, f[0], targeted))
     rng = ctx.rng
     complete = True
     pos = 0
@@ -568,9 +570,10 @@ def run(ctx):
         hseed = rng.randrange(1 << 30)
         random.seed(hseed)
         ch = W.RandomChooser(random.Random(hseed), p_time=0.0, p_preempt=rng.choice([0.0, 0.1, 0.3]))
-        env = SimEnv(ch, addresses=['127.0.0.1'], max_steps=10 ** 8)
+        env = SimEnv(ch, addresses=['127.0.0.1', '127.0.0.2'], max_steps=10 ** 8)
         server = PageServer()
-        env.net.nodes['127.0.0.1'].behaviour = server.behaviour
+        for node_ in env.net.nodes.values():
+            node_.behaviour = server.behaviour
         env.net.chunking = rng.random() < 0.3
         srng = random.Random(hseed ^ 0x5a5a)
         try:
@@ -580,8 +583,11 @@ def run(ctx):
                     profiles[name] = ExecutionProfile(load_balancing_policy=RoundRobinPolicy(), row_factory=f, request_timeout=None)
                 cluster = env.cluster(protocol_version=rng.choice([3, 4]), execution_profiles=profiles)
                 session = cluster.connect()
-                for seq, pat, fname in work[pos:pos + batch]:
+                env.world.settle(advance=False)
+                hosts = sorted(cluster.metadata.all_hosts(), key=lambda h: str(h.endpoint))
+                for seq, pat, fname, targeted in work[pos:pos + batch]:
                     uid += 1
+                    target = hosts[uid % len(hosts)] if targeted else None
                     nxt = [uid * 100]
 
                     def ids(n):
@@ -599,9 +605,9 @@ def run(ctx):
                     st = SimpleStatement(uid_query(uid), fetch_size=fetch)
                     try:
                         if pat.startswith('callback-paging'):
-                            seen, prob = callback_paging(pat, session, st, fname, env.world, sp)
+                            seen, prob = callback_paging(pat, session, st, fname, env.world, sp, host=target)
                         else:
-                            rs = session.execute(st, execution_profile=fname)
+                            rs = session.execute(st, execution_profile=fname, host=target)
                             seen, prob = access(pat, rs, sp, makers[fname])
                     except (W.WorldHang, W.WorldLimit):
                         raise
@@ -610,7 +616,14 @@ def run(ctx):
                         seen, prob = [], [('access-pattern-raised', '%s: %s | %s' % (type(e).__name__, e, traceback.format_exc()[-300:]))]
                     with env.world.inspect():
                         problems = judge(seen, prob, sp, fetch)
-                    ctx.case(repr((seq, pat, fname)), nontrivial=len(seq) > 1)
+                        if targeted:
+                            ctx.count("targeted_executions")
+                            ctx.count("targeted_page_requests_checked", len(sp.get('nodes', [])))
+                            astray = [a for a in sp.get('nodes', []) if a != target.address]
+                            if astray:
+                                problems.append(('targeted-execution-page-request-sent-to-another-host', 'execution pinned to %s, page requests went to %r' % (
+                                    target.address, sp.get('nodes'))))
+                    ctx.case(repr((seq, pat, fname, targeted)), nontrivial=len(seq) > 1)
                     ctx.count("statements_executed")
                     ctx.count("page_requests_checked", len(sp['log']))
                     ctx.count("rows_compared", len(seen))
@@ -623,7 +636,7 @@ def run(ctx):
                         if slug in done:
                             continue
                         done.add(slug)
-                        ctx.violation(slug, "%s [page sizes %r, pattern %s, %s rows, fetch_size %d]" % (text, seq, pat, fname, fetch),
+                        ctx.violation(slug, "%s [page sizes %r, pattern %s, %s rows, fetch_size %d%s]" % (text, seq, pat, fname, fetch, ', host=%s' % target.address if targeted else ''),
                                       {"page_sizes": list(seq), "pattern": pat, "row_factory": fname, "requests": [repr(l) for l in sp['log']][:12],
                                        "paging_states": [s.hex() for s in states], "seen": seen})
                     if not problems and len(ctx.samples) < 4 and len(seq) >= 3 and 0 in seq[:-1]:
@@ -650,6 +663,6 @@ def run(ctx):
                "(after an exception they cannot be resumed: list mode refuses once iteration started); the first page is only retried transparently")
     run_fault_family(ctx, budget + (10 if ctx.quick else 60))
     ctx.floor_distinct = 600 if ctx.quick else 20000
-    ctx.floor_counters = {"fault_cases": 200, "fault_decisions_rethrow": 30, "fault_decisions_ignore": 40, "fault_errors_caught_and_resumed": 30,
+    ctx.floor_counters = {"targeted_executions": 300, "targeted_page_requests_checked": 700, "fault_cases": 200, "fault_decisions_rethrow": 30, "fault_decisions_ignore": 40, "fault_errors_caught_and_resumed": 30,
                           "statements_executed": 600, "page_requests_checked": 1500, "cases_with_an_empty_page_before_the_last": 150,
                           "cases_with_an_empty_last_page": 100}
